@@ -536,7 +536,7 @@ impl InnerInMemory {
 
         let multiple_records_at_label_disallowed = self
             .records
-            .range(&start_range_key..&end_range_key)
+            .range(&start_range_key..=&end_range_key)
             // remember CNAME can be the only record at a particular label
             .any(|(key, _)| {
                 !is_nsec(record.record_type(), key.record_type)
